@@ -93,7 +93,7 @@ public:
     explicit channel(size_t capacity)
         : m_capacity(capacity), m_queue(nullptr), m_closed(false),
           m_senders_waiting(0), m_receivers_waiting(0),
-          m_handoff_ptr(nullptr), m_handoff_ready(false) {
+          m_handoff_ptr(nullptr), m_handoff_ready(false), m_handoff_seq(0) {
         if (capacity > 0) {
             m_queue = FlexLockfreeMPMCRingQueue<T*>::create(capacity);
         }
@@ -117,7 +117,8 @@ public:
     channel(channel&& other) noexcept
         : m_capacity(other.m_capacity), m_queue(other.m_queue),
           m_closed(other.m_closed.load()), m_senders_waiting(0),
-          m_receivers_waiting(0), m_handoff_ptr(nullptr), m_handoff_ready(false) {
+          m_receivers_waiting(0), m_handoff_ptr(nullptr), m_handoff_ready(false),
+          m_handoff_seq(0) {
         other.m_queue = nullptr;
         other.m_capacity = 0;
     }
@@ -364,8 +365,9 @@ private:
         m_senders_waiting++;
         DEFER(m_senders_waiting--);
 
-        // Wait for a receiver
-        while (!m_closed && m_receivers_waiting == 0 && !m_handoff_ready) {
+        // Wait for a receiver, and for the handoff slot to be free: a value
+        // placed by another sender must not be overwritten before it is taken
+        while (!m_closed && (m_receivers_waiting == 0 || m_handoff_ready)) {
             if (timeout.expired()) {
                 delete ptr;
                 errno = ETIMEDOUT;
@@ -386,23 +388,24 @@ private:
         // Place value in handoff slot
         m_handoff_ptr = ptr;
         m_handoff_ready = true;
+        auto seq = m_handoff_seq;   // changes when this very value is taken
         m_unbuf_recv_cv.notify_one();
 
         // Wait for receiver to take it
-        while (m_handoff_ready && !m_closed) {
+        while (m_handoff_seq == seq && !m_closed) {
             if (timeout.expired()) {
-                if (m_handoff_ready) {
-                    delete m_handoff_ptr;
-                    m_handoff_ptr = nullptr;
-                    m_handoff_ready = false;
-                }
+                // not taken: the slot still holds our value
+                delete m_handoff_ptr;
+                m_handoff_ptr = nullptr;
+                m_handoff_ready = false;
+                m_unbuf_send_cv.notify_all();   // the slot is free again
                 errno = ETIMEDOUT;
                 return false;
             }
             m_unbuf_send_cv.wait(m_unbuf_mutex, timeout);
         }
 
-        return !m_closed || !m_handoff_ready;
+        return m_handoff_seq != seq;
     }
 
     bool unbuffered_recv(T& value, Timeout timeout) {
@@ -429,7 +432,9 @@ private:
             delete m_handoff_ptr;
             m_handoff_ptr = nullptr;
             m_handoff_ready = false;
-            m_unbuf_send_cv.notify_one();
+            m_handoff_seq++;
+            // wake the sender of this value and the senders waiting for the slot
+            m_unbuf_send_cv.notify_all();
             return true;
         }
 
@@ -462,7 +467,9 @@ private:
             delete m_handoff_ptr;
             m_handoff_ptr = nullptr;
             m_handoff_ready = false;
-            m_unbuf_send_cv.notify_one();
+            m_handoff_seq++;
+            // wake the sender of this value and the senders waiting for the slot
+            m_unbuf_send_cv.notify_all();
             return true;
         }
         return false;
@@ -510,6 +517,7 @@ private:
     // For unbuffered channels: mutex-based handoff
     T* m_handoff_ptr;
     bool m_handoff_ready;
+    uint64_t m_handoff_seq;     // number of values taken from the handoff slot
     mutex m_unbuf_mutex;
     condition_variable m_unbuf_send_cv;
     condition_variable m_unbuf_recv_cv;
